@@ -1,22 +1,44 @@
 import TacklerModel.Lemmas.Order
+import TacklerModel.Lemmas.AcceptOrder
 import TacklerModel.Model.Balance
+import TacklerModel.Props.C02
+import TacklerModel.Props.C06
+import TacklerModel.Props.C09
+import TacklerModel.Props.C13
 /-!
 # C04 — results depend only on the set of transactions, not on how it was supplied
 
-Every report, export and checksum of the model is a function of the *loaded list*
-`sortTxns ts` (`TxnData::from` sorts once; nothing downstream sees the supply order).  Hence
-order-independence reduces to: two arrangements of the same transactions load to the same list.
-* `sort_unique` – they do, when transactions are pairwise distinguishable by
-  (instant, code, description, uuid) (after the fix of F14 the header order separates an absent from an
-  empty code/description, so "distinguishable" is exactly "different sort key").
-* `any_output_arrangement_free` – consequently any function of the loaded list (identity/equity
-  export, balance, balance-group, register, checksum texts) is arrangement-free.
-* `load_multiset` – without distinguishability the loaded lists are still permutations of each other
-  (figures that are sums over the multiset – balance values, checksums – are then equal; the value-level
-  statements live with C02 `own_sum`/`tree_sum` and C09 `checksum_perm`).
+Every report, export and checksum of the model is a function of the *loaded list* (`TxnData::from` sorts once;
+nothing downstream sees the supply order) and of the settings after the load.  Order-independence therefore has
+two halves, both proved here for files of parse trees and for files of text:
+
+**Loading** (`Lemmas/AcceptOrder.lean`: acceptance does not depend on the order in which transactions and files
+pass through `Settings`).
+* `shards_free` – two arrangements (lists of files, each a list of parse trees) whose flattenings are
+  permutations of each other: both load or both fail; the loaded lists are permutations of each other; they are
+  EQUAL when the transactions are pairwise distinguishable by (instant, code, description, uuid) = `hdrKey`; the
+  settings after the load have the same switches and the same charts as sets.  `shards_status`: the class of a
+  failure (error / outside the modelled domain) agrees as well unless the journal contains both kinds.
+* `shards_free_files` – the same through `loadFiles` for text files that parse to such trees;
+  `arrangements_text` – the same for *printed* arrangements: the accepted transactions of a journal, permuted,
+  split over any number of files, each file in its own layout of the family of C06, load to the same list.
+  (Concatenating arbitrary file texts is not a grammar-level operation — a file need not end in a blank line —
+  so text-level sharding is stated for files that parse, and for the printed family where C06 gives the parse.)
+* `sort_unique`, `any_output_arrangement_free`, `load_multiset`, `order_separates` – the list level.
+* `layout_free`, `journal_roundtrip` – two layouts of the same transactions parse to the same trees (C06).
+
+**Values** for transactions that are *not* distinguishable (the loaded lists are then only permutations):
+* `values_perm` – balance rows: same keys in the same order, same own and tree sums as numbers (C02);
+  `report_values_perm` – also through the account selector, with the same deltas;
+* `group_candidates_perm`, `group_values_perm` – balance groups: same group keys, the groups are permutations,
+  hence the same figures (C13's closed form);
+* `checksum_perm`, `set_checksum_perm` – checksums (C09).
+Equity export figures are balances of the loaded list (`C10`), not restated here.
 * hash-order freedom: the balance kernel model has no iteration-order parameter any more (F8 fixed:
-  ordered set); `balance_no_hidden_order` records that `balance` is a plain function.
+  ordered set); `balance_arrangement_free` records that `balance` is a plain function of the loaded list.
 -/
+set_option linter.unusedVariables false
+
 namespace Tackler
 namespace C04
 
@@ -62,6 +84,331 @@ theorem balance_arrangement_free (st : Settings) (sel : BalRow → Bool) (xs ys 
     fromIter st sel (postsOf (sortTxns xs)) = fromIter st sel (postsOf (sortTxns ys)) :=
   any_output_arrangement_free (fun l => fromIter st sel (postsOf l)) xs ys hp hd
 
+/-! ## loading: arrangements of parse trees and of texts -/
+
+open AcceptOrder in
+/-- **C04 `shards_free`.**  Two arrangements of the same parse trees — permuted, split over files, merged, the
+    files in any order: both load or both fail; when they load, the loaded lists are permutations of each other,
+    *equal* when the transactions are pairwise distinguishable by `hdrKey`, and (`hcl`: lax mode starts from an
+    ancestor-closed account chart, as `Settings.ofConfig` builds it) the settings after the load have the same
+    switches and the same charts as sets, in lax mode both account charts ancestor-closed. -/
+theorem shards_free (st : Settings) (A B : List (List RawTxn)) (hp : A.flatten.Perm B.flatten) :
+    (loadTrees st A).isOk = (loadTrees st B).isOk ∧
+    ∀ la sa lb sb, loadTrees st A = .ok (la, sa) → loadTrees st B = .ok (lb, sb) →
+      la.Perm lb ∧
+      ((∀ a b, a ∈ A.flatten → b ∈ A.flatten → hdrKey a.header = hdrKey b.header → a = b) → la = lb) ∧
+      ((st.strict = false → C12.AncClosed st.accounts) →
+        SameCharts sa sb ∧ (st.strict = false → C12.AncClosed sa.accounts ∧ C12.AncClosed sb.accounts)) := by
+  rw [loadTrees_eq, loadTrees_eq]
+  constructor
+  · have := fail_perm st _ _ hp
+    cases h1 : acceptJournal st A.flatten <;> cases h2 : acceptJournal st B.flatten <;>
+      simp_all [Outcome.isOk, Outcome.map]
+  · intro la sa lb sb h1 h2
+    obtain ⟨⟨ta, sa'⟩, ha, ea⟩ := (Outcome.map_ok _ _ _).mp h1
+    obtain ⟨⟨tb, sb'⟩, hb, eb⟩ := (Outcome.map_ok _ _ _).mp h2
+    simp only [Prod.mk.injEq] at ea eb
+    obtain ⟨rfl, rfl⟩ := ea
+    obtain ⟨rfl, rfl⟩ := eb
+    obtain ⟨tb', sb'', hb', _, _, hperm⟩ := accept_perm st sa' _ _ ta hp ha
+    rw [hb] at hb'
+    cases hb'
+    refine ⟨load_multiset ta tb hperm, ?_, ?_⟩
+    · intro hd
+      exact sort_unique ta tb hperm (accepted_distinct st sa' _ ta ha hd)
+    · intro hcl
+      exact final_state_perm st sa' sb' _ _ ta tb hp hcl ha hb
+
+open AcceptOrder in
+/-- the class of the failure agrees too, unless the transactions contain both one that is rejected on its own and
+    one that is outside the modelled numeric domain on its own (then the first in supply order decides:
+    `AcceptOrder.status_order_witness`) -/
+theorem shards_status (st : Settings) (A B : List (List RawTxn)) (hp : A.flatten.Perm B.flatten)
+    (hone : (∀ r ∈ A.flatten, acc st r ≠ .undef) ∨ (∀ r ∈ A.flatten, acc st r ≠ .err)) :
+    status (loadTrees st A) = status (loadTrees st B) := by
+  rw [loadTrees_eq, loadTrees_eq]
+  have := status_perm st _ _ hp hone
+  cases h1 : acceptJournal st A.flatten <;> cases h2 : acceptJournal st B.flatten <;>
+    simp_all [status, Outcome.map]
+
+open AcceptOrder in
+/-- **`shards_free` at text level** (`paths_to_txns`): two lists of file texts that parse, file by file, to
+    arrangements of the same parse trees load alike. -/
+theorem shards_free_files (cfg : Time.TsCfg) (st : Settings) (fa fb : List (List Char)) (A B : List (List RawTxn))
+    (hpa : fa.map (Syntax.parseJournal cfg) = A.map some) (hpb : fb.map (Syntax.parseJournal cfg) = B.map some)
+    (hp : A.flatten.Perm B.flatten) :
+    (loadFiles cfg st fa).isOk = (loadFiles cfg st fb).isOk ∧
+    ∀ la sa lb sb, loadFiles cfg st fa = .ok (la, sa) → loadFiles cfg st fb = .ok (lb, sb) →
+      la.Perm lb ∧
+      ((∀ a b, a ∈ A.flatten → b ∈ A.flatten → hdrKey a.header = hdrKey b.header → a = b) → la = lb) ∧
+      ((st.strict = false → C12.AncClosed st.accounts) →
+        SameCharts sa sb ∧ (st.strict = false → C12.AncClosed sa.accounts ∧ C12.AncClosed sb.accounts)) := by
+  rw [loadFiles_eq cfg fa A st hpa, loadFiles_eq cfg fb B st hpb]
+  exact shards_free st A B hp
+
+/-- one text against any sharding of its transactions -/
+theorem one_file_vs_shards (cfg : Time.TsCfg) (st : Settings) (text : List Char) (rs : List RawTxn)
+    (fb : List (List Char)) (B : List (List RawTxn))
+    (hpa : Syntax.parseJournal cfg text = some rs) (hne : rs ≠ [])
+    (hpb : fb.map (Syntax.parseJournal cfg) = B.map some) (hp : rs.Perm B.flatten)
+    (hd : ∀ a b, a ∈ rs → b ∈ rs → hdrKey a.header = hdrKey b.header → a = b) :
+    ∀ la sa lb sb, loadText cfg st text = .ok (la, sa) → loadFiles cfg st fb = .ok (lb, sb) → la = lb := by
+  intro la sa lb sb h1 h2
+  rw [AcceptOrder.loadText_eq cfg text rs st hpa hne] at h1
+  rw [AcceptOrder.loadFiles_eq cfg fb B st hpb] at h2
+  exact ((shards_free st [rs] B (by simpa using hp)).2 la sa lb sb h1 h2).2.1 (by simpa using hd)
+
+/-- an arrangement of accepted transactions as text: every file a chunk of transactions printed in its own layout -/
+def printFiles (div : Dec → Dec → Dec) (A : List (Print.Layout × List Txn)) : List (List Char) :=
+  A.map (fun f => Print.printL f.1 div f.2)
+
+/-- **`arrangements_text`.**  Take the transactions `ts` a journal was accepted to; arrange them in any order over
+    any number of files (non-empty chunks), each file printed in its own layout of the family of C06 (indent,
+    blank lines, metadata order, line ends): the files load, to the sorted concatenation of the chunks — a
+    permutation of the originally loaded list, and equal to it when transactions are distinguishable
+    (`arrangements_text_unique`).  Assumes, as C06 does, `DivExact` and the lexical well-formedness `WF`/`UnitNE`. -/
+theorem arrangements_text (cfg : Time.TsCfg) (div : Dec → Dec → Dec) (st st' : Settings) (rs : List RawTxn)
+    (ts : List Txn) (hacc : acceptJournal st rs = .ok (ts, st'))
+    (hne : ∀ r ∈ rs, ∀ rp ∈ r.posts, C06.UnitNE rp.unit)
+    (hw : ∀ t ∈ ts, C06.WF div t) (hdiv : ∀ t ∈ ts, ∀ p ∈ t.posts, C06.DivExact div p)
+    (A : List (Print.Layout × List Txn)) (hL : ∀ f ∈ A, Syntax.LayoutOK f.1 ∧ f.2 ≠ [])
+    (hp : (A.map (·.2)).flatten.Perm ts) :
+    ∃ sa, loadFiles cfg st (printFiles div A) = .ok (sortTxns (A.map (·.2)).flatten, sa) := by
+  have hmem : ∀ f ∈ A, ∀ t ∈ f.2, t ∈ ts := by
+    intro f hf t ht
+    exact hp.subset (List.mem_flatten.mpr ⟨f.2, List.mem_map.mpr ⟨f, hf, rfl⟩, ht⟩)
+  have hparse : (printFiles div A).map (Syntax.parseJournal cfg) =
+      (A.map (fun f => f.2.map (Print.rawOf div))).map some := by
+    unfold printFiles
+    rw [List.map_map, List.map_map]
+    apply List.map_congr_left
+    intro f hf
+    obtain ⟨h1, h2⟩ := hL f hf
+    simp only [Function.comp]
+    exact C06.journal_roundtrip cfg f.1 h1 div f.2 h2 (fun t ht => hw t (hmem f hf t ht))
+  rw [AcceptOrder.loadFiles_eq cfg _ _ st hparse, AcceptOrder.loadTrees_eq]
+  have hflat : (A.map (fun f => f.2.map (Print.rawOf div))).flatten = ((A.map (·.2)).flatten).map (Print.rawOf div) := by
+    rw [List.map_flatten, List.map_map]; rfl
+  rw [hflat]
+  obtain ⟨sa, h⟩ := C06.reaccept_perm div st st' rs ts _ hacc hp hne hdiv
+  exact ⟨sa, by rw [h]; rfl⟩
+
+/-- two printed arrangements of distinguishable transactions load to the same list -/
+theorem arrangements_text_unique (cfg : Time.TsCfg) (div : Dec → Dec → Dec) (st st' : Settings) (rs : List RawTxn)
+    (ts : List Txn) (hacc : acceptJournal st rs = .ok (ts, st'))
+    (hne : ∀ r ∈ rs, ∀ rp ∈ r.posts, C06.UnitNE rp.unit)
+    (hw : ∀ t ∈ ts, C06.WF div t) (hdiv : ∀ t ∈ ts, ∀ p ∈ t.posts, C06.DivExact div p)
+    (hd : ∀ a b, a ∈ ts → b ∈ ts → hdrKey a.header = hdrKey b.header → a = b)
+    (A B : List (Print.Layout × List Txn)) (hLA : ∀ f ∈ A, Syntax.LayoutOK f.1 ∧ f.2 ≠ [])
+    (hLB : ∀ f ∈ B, Syntax.LayoutOK f.1 ∧ f.2 ≠ [])
+    (hpA : (A.map (·.2)).flatten.Perm ts) (hpB : (B.map (·.2)).flatten.Perm ts) :
+    ∃ sa sb, loadFiles cfg st (printFiles div A) = .ok (sortTxns ts, sa) ∧
+      loadFiles cfg st (printFiles div B) = .ok (sortTxns ts, sb) := by
+  obtain ⟨sa, ha⟩ := arrangements_text cfg div st st' rs ts hacc hne hw hdiv A hLA hpA
+  obtain ⟨sb, hb⟩ := arrangements_text cfg div st st' rs ts hacc hne hw hdiv B hLB hpB
+  have ea := sort_unique ts _ hpA.symm hd
+  have eb := sort_unique ts _ hpB.symm hd
+  exact ⟨sa, sb, by rw [ea]; exact ha, by rw [eb]; exact hb⟩
+
+/-- **`layout_free`** (C06): two layouts of the same transactions parse to the same trees -/
+theorem layout_free (cfg₁ cfg₂ : Time.TsCfg) (L₁ L₂ : Print.Layout) (h₁ : Syntax.LayoutOK L₁) (h₂ : Syntax.LayoutOK L₂)
+    (div : Dec → Dec → Dec) (ts : List Txn) (hne : ts ≠ []) (hw : ∀ t ∈ ts, C06.WF div t) :
+    Syntax.parseJournal cfg₁ (Print.printL L₁ div ts) = Syntax.parseJournal cfg₂ (Print.printL L₂ div ts) :=
+  C06.layout_free cfg₁ cfg₂ L₁ L₂ h₁ h₂ div ts hne hw
+
+theorem journal_roundtrip (cfg : Time.TsCfg) (L : Print.Layout) (hL : Syntax.LayoutOK L) (div : Dec → Dec → Dec)
+    (ts : List Txn) (hne : ts ≠ []) (hw : ∀ t ∈ ts, C06.WF div t) :
+    Syntax.parseJournal cfg (Print.printL L div ts) = some (ts.map (Print.rawOf div)) :=
+  C06.journal_roundtrip cfg L hL div ts hne hw
+
+/-! ## values: figures of permuted loads (no distinguishability) -/
+
+open C02 KeyOrder ListSum
+
+theorem postsOf_perm (la lb : List Txn) (hp : la.Perm lb) : (postsOf la).Perm (postsOf lb) := by
+  unfold postsOf
+  exact hp.flatMap_right _
+
+theorem postsWF_perm (posts posts' : List BPost) (hp : posts.Perm posts') (h : PostsWF posts) : PostsWF posts' :=
+  ⟨fun p hp' => h.scale p (hp.symm.subset hp'), fun p hp' => h.nonempty p (hp.symm.subset hp'),
+   fun p q ⟨x, hx, hpx⟩ ⟨y, hy, hqy⟩ hn =>
+     h.namesInj p q ⟨x, hp.symm.subset hx, hpx⟩ ⟨y, hp.symm.subset hy, hqy⟩ hn⟩
+
+theorem ownSum_perm (posts posts' : List BPost) (hp : posts.Perm posts') (k : AKey) :
+    ownSum posts k = ownSum posts' k := by
+  unfold ownSum
+  exact perm_sum ((hp.filter _).map _)
+
+theorem treeSum_perm (posts posts' : List BPost) (hp : posts.Perm posts') (k : AKey) :
+    treeSum posts k = treeSum posts' k := by
+  unfold treeSum
+  exact perm_sum ((hp.filter _).map _)
+
+/-- what a balance row says, as numbers: (commodity, account), own sum, tree sum in units of 10⁻²⁸ -/
+def rowVal (r : BalRow) : AKey × Int × Int := (r.key, r.own.units, r.tree.units)
+
+theorem strict_keys_ext {l₁ l₂ : List AKey} (h1 : l₁.Pairwise (fun a b => keyLt a b = true))
+    (h2 : l₂.Pairwise (fun a b => keyLt a b = true)) (hm : ∀ k, k ∈ l₁ ↔ k ∈ l₂) : l₁ = l₂ := by
+  apply sorted_perm_eq (fun a b : AKey => keyLt a b = true) l₁ l₂
+    ((List.perm_ext_iff_of_nodup (nodup_of_pairwise_keyLt _ h1) (nodup_of_pairwise_keyLt _ h2)).mpr hm) h1 h2
+  intro a b _ _ hab hba
+  rw [keyLt_asymm a b hab] at hba
+  cases hba
+
+/-- **C04 `values_perm`.**  Balances of two permuted posting streams (e.g. the loads of two arrangements whose
+    transactions are *not* distinguishable), computed with whatever settings: the same rows in the same order —
+    same (commodity, account) keys, same own sums and same tree sums as numbers.  (Stored scales may differ:
+    `0.00 + 5` prints `5`, `5 + 1.00 - 1.00` prints `5.00`.) -/
+theorem values_perm (st st' : Settings) (posts posts' : List BPost) (hp : posts.Perm posts') (hwf : PostsWF posts)
+    (bal bal' : List BalRow) (h : balance st posts = .ok bal) (h' : balance st' posts' = .ok bal') :
+    bal.map rowVal = bal'.map rowVal := by
+  have hwf' := postsWF_perm posts posts' hp hwf
+  obtain ⟨hs, hk⟩ := rows_exact st posts hwf bal h
+  obtain ⟨hs', hk'⟩ := rows_exact st' posts' hwf' bal' h'
+  have hkeys : bal.map (·.key) = bal'.map (·.key) := by
+    apply strict_keys_ext hs hs'
+    intro k
+    rw [hk, hk']
+    constructor
+    · rintro (⟨p, hpm, e⟩ | ⟨p, hpm, e⟩)
+      · exact .inl ⟨p, hp.subset hpm, e⟩
+      · exact .inr ⟨p, hp.subset hpm, e⟩
+    · rintro (⟨p, hpm, e⟩ | ⟨p, hpm, e⟩)
+      · exact .inl ⟨p, hp.symm.subset hpm, e⟩
+      · exact .inr ⟨p, hp.symm.subset hpm, e⟩
+  have e1 : bal.map rowVal = (bal.map (·.key)).map (fun k => (k, ownSum posts k, treeSum posts k)) := by
+    rw [List.map_map]
+    apply List.map_congr_left
+    intro r hr
+    simp only [rowVal, Function.comp, own_sum st posts hwf bal h r hr, tree_sum_posts st posts hwf bal h r hr]
+  have e2 : bal'.map rowVal = (bal'.map (·.key)).map (fun k => (k, ownSum posts k, treeSum posts k)) := by
+    rw [List.map_map]
+    apply List.map_congr_left
+    intro r hr
+    simp only [rowVal, Function.comp, own_sum st' posts' hwf' bal' h' r hr, tree_sum_posts st' posts' hwf' bal' h' r hr,
+      ownSum_perm posts posts' hp, treeSum_perm posts posts' hp]
+  rw [e1, e2, hkeys]
+
+/-- the same for the loads of two arrangements: `la`, `lb` permutations of each other (`shards_free`) -/
+theorem load_values_perm (st st' : Settings) (la lb : List Txn) (hp : la.Perm lb) (hwf : PostsWF (postsOf la))
+    (bal bal' : List BalRow) (h : balance st (postsOf la) = .ok bal) (h' : balance st' (postsOf lb) = .ok bal') :
+    bal.map rowVal = bal'.map rowVal :=
+  values_perm st st' _ _ (postsOf_perm la lb hp) hwf bal bal' h h'
+
+/-- what a delta line says, as numbers -/
+def deltaVal (d : String × Dec) : String × Int := (d.1, d.2.units)
+
+/-- the delta of commodity `c` computed from the row values -/
+def deltaOf (vs : List (AKey × Int × Int)) (c : String) : Int :=
+  ((vs.filter (fun v => decide (v.1.1 = c))).map (·.2.1)).sum
+
+theorem deltas_from_rows (st : Settings) (sel : BalRow → Bool) (posts : List BPost) (hwf : PostsWF posts) (b : Balance)
+    (h : fromIter st sel posts = .ok b) :
+    (b.deltas.map (·.1)).Pairwise (· < ·) ∧
+    (∀ c, c ∈ b.deltas.map (·.1) ↔ ∃ v ∈ b.rows.map rowVal, v.1.1 = c) ∧
+    b.deltas.map deltaVal = (b.deltas.map (·.1)).map (fun c => (c, deltaOf (b.rows.map rowVal) c)) := by
+  obtain ⟨_, hstrict, hmem, hval⟩ := delta_eq st sel posts hwf b h
+  refine ⟨hstrict, ?_, ?_⟩
+  · intro c
+    rw [hmem]
+    constructor
+    · rintro ⟨r, hr, e⟩; exact ⟨rowVal r, List.mem_map_of_mem hr, e⟩
+    · rintro ⟨v, hv, e⟩
+      obtain ⟨r, hr, rfl⟩ := List.mem_map.mp hv
+      exact ⟨r, hr, e⟩
+  · rw [List.map_map]
+    apply List.map_congr_left
+    intro cd hcd
+    simp only [deltaVal, Function.comp, hval cd hcd, deltaOf, List.filter_map, List.map_map]
+    rfl
+
+/-- **`report_values_perm`.**  The balance *report* (account selector applied, deltas) of two permuted posting
+    streams: same listed rows as numbers, same delta lines as numbers — for a selector that looks at the
+    (commodity, account) key only, as the account selectors do. -/
+theorem report_values_perm (st st' : Settings) (sel : BalRow → Bool) (hsel : ∀ r r' : BalRow, r.key = r'.key → sel r = sel r')
+    (posts posts' : List BPost) (hp : posts.Perm posts') (hwf : PostsWF posts)
+    (b b' : Balance) (h : fromIter st sel posts = .ok b) (h' : fromIter st' sel posts' = .ok b') :
+    b.rows.map rowVal = b'.rows.map rowVal ∧ b.deltas.map deltaVal = b'.deltas.map deltaVal := by
+  have hwf' := postsWF_perm posts posts' hp hwf
+  obtain ⟨⟨bal, hb, hrows⟩, _⟩ := delta_eq st sel posts hwf b h
+  obtain ⟨⟨bal', hb', hrows'⟩, _⟩ := delta_eq st' sel posts' hwf' b' h'
+  have hv := values_perm st st' posts posts' hp hwf bal bal' hb hb'
+  let selV : AKey × Int × Int → Bool := fun v => sel ⟨v.1.2, v.1.1, Dec.zero, Dec.zero⟩
+  have hsv : ∀ r : BalRow, sel r = selV (rowVal r) := fun r => hsel _ _ rfl
+  have hrv : ∀ l : List BalRow, (l.filter sel).map rowVal = (l.map rowVal).filter selV := by
+    intro l
+    rw [List.filter_map]
+    congr 1
+    apply List.filter_congr
+    intro r _
+    exact hsv r
+  have hrowsEq : b.rows.map rowVal = b'.rows.map rowVal := by rw [hrows, hrows', hrv, hrv, hv]
+  refine ⟨hrowsEq, ?_⟩
+  obtain ⟨s1, m1, v1⟩ := deltas_from_rows st sel posts hwf b h
+  obtain ⟨s2, m2, v2⟩ := deltas_from_rows st' sel posts' hwf' b' h'
+  have hk : b.deltas.map (·.1) = b'.deltas.map (·.1) := by
+    apply C13.strict_ext s1 s2
+    intro c
+    rw [m1, m2, hrowsEq]
+  rw [v1, v2, hk, hrowsEq]
+
+/-- **`group_candidates_perm`.**  Balance groups of two permuted transaction lists: the same group keys in the same
+    order, and the group of every key holds the same transactions up to order. -/
+theorem group_candidates_perm (key : Txn → String) (ts ts' : List Txn) (hp : ts.Perm ts') :
+    (groupCandidates key ts).map (·.1) = (groupCandidates key ts').map (·.1) ∧
+    ∀ k g g', (k, g) ∈ groupCandidates key ts → (k, g') ∈ groupCandidates key ts' → g.Perm g' := by
+  have hs := C13.candidates_spec key ts
+  have hs' := C13.candidates_spec key ts'
+  have hmem : ∀ (l : List Txn), ∀ k, k ∈ (groupCandidates key l).map (·.1) ↔ ∃ t ∈ l, key t = k := by
+    intro l k
+    have hl := C13.candidates_spec key l
+    constructor
+    · intro hk
+      obtain ⟨kg, hkg, rfl⟩ := List.mem_map.mp hk
+      obtain ⟨hne, hall⟩ := hl.members kg hkg
+      obtain ⟨t, tl, e⟩ := List.exists_cons_of_ne_nil hne
+      have ht : t ∈ kg.2 := by rw [e]; exact List.mem_cons_self
+      have : t ∈ l := by
+        have := hl.filter kg hkg
+        rw [this] at ht
+        exact (List.mem_filter.mp ht).1
+      exact ⟨t, this, hall t ht⟩
+    · rintro ⟨t, ht, rfl⟩
+      have : t ∈ ((groupCandidates key l).map (·.2)).flatten := hl.perm.symm.subset ht
+      obtain ⟨g, hg, htg⟩ := List.mem_flatten.mp this
+      obtain ⟨kg, hkg, rfl⟩ := List.mem_map.mp hg
+      exact List.mem_map.mpr ⟨kg, hkg, ((hl.members kg hkg).2 t htg).symm⟩
+  refine ⟨?_, ?_⟩
+  · apply C13.strict_ext hs.strict hs'.strict
+    intro k
+    rw [hmem ts k, hmem ts' k]
+    constructor
+    · rintro ⟨t, ht, e⟩; exact ⟨t, hp.subset ht, e⟩
+    · rintro ⟨t, ht, e⟩; exact ⟨t, hp.symm.subset ht, e⟩
+  · intro k g g' hg hg'
+    have e1 := hs.filter (k, g) hg
+    have e2 := hs'.filter (k, g') hg'
+    simp only at e1 e2
+    rw [e1, e2]
+    exact hp.filter _
+
+/-- **`group_values_perm`.**  … hence every balance group shows the same figures. -/
+theorem group_values_perm (key : Txn → String) (ts ts' : List Txn) (hp : ts.Perm ts') (st st' : Settings)
+    (k : String) (g g' : List Txn) (hg : (k, g) ∈ groupCandidates key ts) (hg' : (k, g') ∈ groupCandidates key ts')
+    (hwf : PostsWF (postsOf g)) (bal bal' : List BalRow)
+    (h : balance st (postsOf g) = .ok bal) (h' : balance st' (postsOf g') = .ok bal') :
+    bal.map rowVal = bal'.map rowVal :=
+  load_values_perm st st' g g' ((group_candidates_perm key ts ts' hp).2 k g g' hg hg') hwf bal bal' h h'
+
+/-- **`checksum_perm`** (C09): the transaction-set checksum (error or digest) of permuted lists -/
+theorem checksum_perm (a b : List Txn) (alg : Hash.Algo) (h : a.Perm b) :
+    calcTxnChecksum a alg = calcTxnChecksum b alg := C09.checksum_perm a b alg h
+
+/-- … and of what a filter selects from them -/
+theorem set_checksum_perm (hash : Option Hash.Algo) (tf : Txn → Bool) (a b : List Txn) (h : a.Perm b) :
+    (TxnData.filter hash tf a).map (·.checksum) = (TxnData.filter hash tf b).map (·.checksum) :=
+  C09.set_checksum_perm hash tf a b h
+
 /-! ### non-vacuity -/
 
 def h1 : Header := ⟨⟨10, 0⟩, none, none, none, none, none, none⟩
@@ -77,6 +424,25 @@ example : sortTxns [t2, t1] = sortTxns [t1, t2] := by
 example : hdrKey h1 ≠ hdrKey h2 := by decide
 /-- regression witness of F14: an absent and an empty code are separated by the order -/
 example : hdrLe h1 h2 = true ∧ hdrLe h2 h1 = false := by decide
+
+/-- two arrangements of two transactions (two files vs one file in the other order), lax mode: both are accepted,
+    to the same transactions in the respective orders; the settings after the load are *not* equal — accounts and
+    commodities were registered in different orders — but equal as sets, which is what `shards_free` states -/
+def rA : RawTxn := ⟨h1, [⟨["a", "b"], Dec.ofInt 1, none, none⟩], some (["c"], none)⟩
+def rB : RawTxn := ⟨h2, [⟨["d"], Dec.ofInt 2, some ⟨"X", none, none⟩, none⟩], some (["a"], none)⟩
+def lax0 : Settings := Settings.ofConfig false false true [] [] []
+
+example : (match AcceptOrder.acceptTrees lax0 [[rA], [rB]], AcceptOrder.acceptTrees lax0 [[rB, rA]] with
+    | .ok (ta, sa), .ok (tb, sb) =>
+      decide (ta = tb.reverse ∧ ta.length = 2 ∧ sa.accounts ≠ sb.accounts ∧ sa.commodities ≠ sb.commodities ∧
+        (∀ p ∈ sa.accounts, p ∈ sb.accounts) ∧ (∀ p ∈ sb.accounts, p ∈ sa.accounts) ∧
+        (∀ c ∈ sa.commodities, c ∈ sb.commodities) ∧ (∀ c ∈ sb.commodities, c ∈ sa.commodities))
+    | _, _ => false) = true := by decide
+
+/-- the hypotheses of `shards_free` for these arrangements -/
+example : ([[rA], [rB]] : List (List RawTxn)).flatten.Perm ([[rB, rA]] : List (List RawTxn)).flatten :=
+  List.Perm.swap rB rA []
+example : lax0.strict = false → C12.AncClosed lax0.accounts := fun _ => by intro p hp; cases hp
 
 end C04
 end Tackler
